@@ -32,3 +32,13 @@ Example C05_case_premise_satisfiable :
   case_json c = JDict [("case", JList [JDict [("then", JStr "a"); ("when", JDict [("eq", JList [JStr "x"; JInt 1%Z])])];
                                        JDict [("then", JStr "b"); ("when", JDict [("eq", JList [JStr "x"; JInt 2%Z])])]; JStr "d"])].
 Proof. vm_compute. repeat split; try reflexivity. discriminate. Qed.
+
+(* non-vacuity of the premises of C05_case_parse_actions_give_tree: concrete raw operands, pushed through the scrub model *)
+Example C05_case_raw_instance :
+  opt_rel (Some (RStr "x")) (Some (JStr "x")) /\ Forall2 arm_rel [(RInt 1%Z, RStr "a")] [(JInt 1%Z, JStr "a")] /\ opt_rel (Some RMark) (Some JMark) /\
+  option_map fst (scrub_s MSimple [] (case_raw (Some (RStr "x")) [(RInt 1%Z, RStr "a")] (Some RMark)))
+  = Some (case_json {| subj := Some (JStr "x"); arms := [(JInt 1%Z, JStr "a")]; other := Some JMark |}).
+Proof.
+  split; [exists []; reflexivity|]. split; [constructor; [split; exists []; reflexivity|constructor]|]. split; [exists []; reflexivity|].
+  vm_compute. reflexivity.
+Qed.
